@@ -317,62 +317,76 @@ func (v *VerifC12) BorrowCommitted(clientID, seriesID, key uint64) *RequestState
 }
 func VerifC12NotifyCommitted(r *RequestState) { r.committed() }
 
-// verifC12Waiters is the number of goroutines parked on m (sync.Mutex keeps it
-// in the bits above mutexWaiterShift = 3 of its first field).
-func verifC12Waiters(m *sync.Mutex) int32 {
-	return atomic.LoadInt32((*int32)(unsafe.Pointer(m))) >> 3
+// verifC12AtLock is a HINT that some goroutine has entered m.Lock() (sync.Mutex
+// counts them in the bits above mutexWaiterShift = 3 of its first field). It is
+// only used to stop waiting early; no verdict and no compared observation
+// depends on it.
+func verifC12AtLock(m *sync.Mutex) bool {
+	return atomic.LoadInt32((*int32)(unsafe.Pointer(m)))>>3 > 0
 }
 
-func verifC12Park(m *sync.Mutex, n int32, done <-chan struct{}) {
-	deadline := time.Now().Add(5 * time.Second)
-	for verifC12Waiters(m) < n {
+// ProposeHeldThenClose runs the real proposalShard.propose() of the shard of
+// key on its own goroutine while the caller holds the shard lock, so that
+// propose() can only execute what it does BEFORE its first shard-lock section.
+// While it is held there the caller looks at the proposal queue and the pending
+// table: enqueuedUnregistered reports that the entry is already in the queue
+// although the request is not in the pending table (a close() of the shard at
+// that moment would lose an accepted request). Then the lock is released,
+// propose() runs to its end - nothing else contends - and afterwards the real
+// proposalShard.close() is called. The returned values and every later
+// observation are those of the sequential execution propose ; close, whatever
+// the scheduler does; only enqueuedUnregistered needs propose() to get that far
+// within the waiting time, and it can only turn true when the code really
+// enqueues first.
+func (v *VerifC12) ProposeHeldThenClose(clientID, seriesID, key, timeout uint64) (rs *RequestState,
+	err error, enqueuedUnregistered bool) {
+	sh := v.pp.shards[key%v.pp.ps]
+	s := &client.Session{ShardID: 1, ClientID: clientID, SeriesID: seriesID}
+	qlen := func() uint64 {
+		v.pq.mu.Lock()
+		defer v.pq.mu.Unlock()
+		return v.pq.idx
+	}
+	before := qlen()
+	var pp interface{}
+	done := make(chan struct{})
+	sh.mu.Lock()
+	go func() {
+		defer close(done)
+		defer func() { pp = recover() }()
+		rs, err = sh.propose(s, nil, key, timeout)
+	}()
+	check := func() {
+		if qlen() > before {
+			if _, ok := sh.pending[key]; !ok {
+				enqueuedUnregistered = true
+			}
+		}
+	}
+	deadline := time.Now().Add(250 * time.Millisecond)
+	for {
+		check()
+		stop := enqueuedUnregistered || time.Now().After(deadline)
 		select {
 		case <-done:
-			return
+			stop = true
 		default:
 		}
-		if time.Now().After(deadline) {
-			panic("verif c12: goroutine did not reach the shard lock")
+		if !stop && verifC12AtLock(&sh.mu) {
+			check() // what propose() did before Lock() is complete
+			stop = true
+		}
+		if stop {
+			break
 		}
 		runtime.Gosched()
 		time.Sleep(20 * time.Microsecond)
 	}
-}
-
-// CloseRacingPropose runs the real proposalShard.close() and the real
-// proposalShard.propose() of the shard of key on two goroutines in this
-// interleaving: the harness holds the shard lock; close() is started and parks
-// on the lock; propose() is started and runs until it needs the shard lock (or
-// returns); the lock is released - close() was first in line, runs to its end,
-// then propose() continues. In terms of critical sections: everything propose()
-// does before its first shard-lock section ; close() ; the rest of propose().
-func (v *VerifC12) CloseRacingPropose(clientID, seriesID, key, timeout uint64) (rs *RequestState, err error) {
-	sh := v.pp.shards[key%v.pp.ps]
-	s := &client.Session{ShardID: 1, ClientID: clientID, SeriesID: seriesID}
-	var pc, pp interface{}
-	closed := make(chan struct{})
-	proposed := make(chan struct{})
-	sh.mu.Lock()
-	go func() {
-		defer close(closed)
-		defer func() { pc = recover() }()
-		sh.close()
-	}()
-	verifC12Park(&sh.mu, 1, closed)
-	go func() {
-		defer close(proposed)
-		defer func() { pp = recover() }()
-		rs, err = sh.propose(s, nil, key, timeout)
-	}()
-	verifC12Park(&sh.mu, 2, proposed)
 	sh.mu.Unlock()
-	<-closed
-	<-proposed
-	if pc != nil {
-		panic(pc)
-	}
+	<-done
 	if pp != nil {
 		panic(pp)
 	}
-	return rs, err
+	sh.close()
+	return rs, err, enqueuedUnregistered
 }
